@@ -416,7 +416,7 @@ fn cmd_check(a: &[String]) -> i32 {
         let (mut min, used) = run::minimise(&trace, &prop, &fp, if args.thorough { 3000 } else { 1500 });
         // the detail of the minimised run
         let mut vv = v.clone();
-        if let Some(r) = run::exec(&min.nodes, &min.events, min.seed, &prop, false) {
+        if let Some(r) = run::exec_isolated(&min.nodes, &min.events, min.seed, &prop, false) {
             if let Some(x) = r.viols.iter().find(|x| x.prop == prop && x.check == fp) {
                 vv = x.clone();
             } else {
